@@ -85,6 +85,8 @@ pub struct StorageEngine {
     logical_time: AtomicU64,
     /// KG names pending async cleanup - prevents same-name recreation and blocks persist writes
     dropping_kgs: parking_lot::RwLock<HashSet<String>>,
+    /// Serializes writers of `metadata/knowledge_graphs.json` (collect the KG list + write it)
+    metadata_save_lock: parking_lot::Mutex<()>,
 }
 
 /// Single knowledge graph instance
@@ -146,6 +148,7 @@ impl StorageEngine {
             persist,
             logical_time: AtomicU64::new(1),
             dropping_kgs: parking_lot::RwLock::new(HashSet::new()),
+            metadata_save_lock: parking_lot::Mutex::new(()),
         };
 
         // Load existing knowledge graphs from persist layer
@@ -1883,6 +1886,11 @@ impl StorageEngine {
     /// Save system-wide knowledge graphs metadata
     fn save_knowledge_graphs_metadata(&self) -> StorageResult<()> {
         let start = Instant::now();
+        // Collecting the list and writing the file must be one critical section: with two
+        // concurrent savers (e.g. a create and a drop) the one that collected first could
+        // otherwise write last and leave a stale list on disk (a dropped KG listed again, or
+        // a freshly created empty KG missing after restart). Callers hold no other lock here.
+        let _save_guard = self.metadata_save_lock.lock();
         let metadata_dir = self.config.storage.data_dir.join("metadata");
         #[cfg(inputlayer_verif)]
         crate::verif_hooks::fs_point("engine.kgsmeta.mkdir:pre");
